@@ -108,6 +108,25 @@ fn c01_hook(w: &mut Worker, rel: &Release) {
     check_release(&mut w.report, rel.case, rel.vk, rel.counter, rel.msg, rel.sig, rel.entry);
 }
 
+/// hbs_lms::sign_mut where the build has it (library feature fast_verify): returns the recording
+/// and the message as the call left it (that is what the signature is for)
+#[cfg(feature = "fv")]
+fn sign_mut_release(alg: Alg, blob: &[u8], msg: &[u8]) -> Option<(libcall::SignRec, Vec<u8>)> {
+    let mut m = msg.to_vec();
+    if m.is_empty() {
+        // sign_mut needs at least one byte in front of the n-byte trailer
+        m.push(0x5a);
+    }
+    m.extend(std::iter::repeat(0u8).take(alg.n()));
+    let (rec, _) = libcall::sign_mut(alg, blob, &mut m, Cb::Accept);
+    Some((rec, m))
+}
+
+#[cfg(not(feature = "fv"))]
+fn sign_mut_release(_alg: Alg, _blob: &[u8], _msg: &[u8]) -> Option<(libcall::SignRec, Vec<u8>)> {
+    None
+}
+
 pub fn run_case(prop: &str, c: Case, w: &mut Worker, ctx: &Ctx, hook: Hook) {
     let mut rng = Rng::new(ctx.seed).fork(&format!("c01-{}", c.tag));
     let kp = match libcall::keygen(c.alg, &c.levels, &c.seed, None) {
@@ -128,6 +147,21 @@ pub fn run_case(prop: &str, c: Case, w: &mut Worker, ctx: &Ctx, hook: Hook) {
             for (pi, &counter) in points.iter().enumerate() {
                 let mut blob = kp.sk.clone();
                 blob[..8].copy_from_slice(&counter.to_be_bytes());
+                // in a fast_verify build also through sign_mut at this state
+                if prop == "C01" {
+                    let m0 = rng.bytes(20 + pi);
+                    if let Some((rec, m)) = sign_mut_release(c.alg, &blob, &m0) {
+                        w.report.count("sign_mut_releases", 1);
+                        match rec.result {
+                            Out::Ok(sig) => hook(w, &Release { case: &c, vk: &kp.vk, blob: &blob, counter, msg: &m, sig: &sig, entry: SignEntry::Bytes, next: rec.cb_args.first().map(|v| v.as_slice()) }),
+                            other => w.report.violation(
+                                &format!("{prop}:sign_mut_failed:{}:{}", c.alg.name(), model::params::levels_to_string(&c.levels)),
+                                &format!("sign_mut failed on a live key at counter {counter}: {}", other.describe()),
+                                shared::replay_doc(prop, c.alg, &c.levels, &c.seed, counter, &m0),
+                            ),
+                        }
+                    }
+                }
                 // a few message shapes per point, all of them over the whole case list
                 for k in 0..3 {
                     let len = lens[(pi * 3 + k + rng.below(lens.len() as u64) as usize) % lens.len()];
@@ -167,6 +201,7 @@ pub fn run_case(prop: &str, c: Case, w: &mut Worker, ctx: &Ctx, hook: Hook) {
         Plan::Walk { from, count } => {
             let mut blob = kp.sk.clone();
             blob[..8].copy_from_slice(&from.to_be_bytes());
+            let with_sign_mut = prop == "C01" && cfg!(feature = "fv");
             for step in 0..*count {
                 let counter = from + step;
                 let len = if step % 7 == 0 { *rng.pick(&lens) } else { rng.range(0, 64) };
@@ -174,9 +209,20 @@ pub fn run_case(prop: &str, c: Case, w: &mut Worker, ctx: &Ctx, hook: Hook) {
                 let msg = rng.bytes(len);
                 let entry = entries[(step % 3) as usize];
                 let cur = blob.clone();
-                let rec = match entry {
-                    SignEntry::Bytes => libcall::sign_bytes(c.alg, &cur, &msg, Cb::Accept, None),
-                    e => libcall::sign_key(c.alg, &cur, &msg, e, None),
+                // every fourth step of a walk goes through sign_mut in a fast_verify build
+                let (rec, msg, entry) = match (with_sign_mut && step % 4 == 3).then(|| sign_mut_release(c.alg, &cur, &msg)).flatten() {
+                    Some((r, m)) => {
+                        w.report.count("sign_mut_releases", 1);
+                        (r, m, SignEntry::Bytes)
+                    }
+                    None => (
+                        match entry {
+                            SignEntry::Bytes => libcall::sign_bytes(c.alg, &cur, &msg, Cb::Accept, None),
+                            e => libcall::sign_key(c.alg, &cur, &msg, e, None),
+                        },
+                        msg,
+                        entry,
+                    ),
                 };
                 let next = match entry {
                     SignEntry::Bytes => rec.cb_args.first().cloned(),
@@ -427,6 +473,12 @@ pub fn run(ctx: &Ctx) -> Report {
             if rep.counter(&format!("rollovers_crossed_level{}_{}", l, alg.name())) == 0 {
                 rep.inconclusive(&format!("no roll-over of level {l} observed for {}", alg.name()));
             }
+        }
+    }
+    if cfg!(feature = "fv") {
+        rep.rule.push_str(" ; this build has the library's fast_verify feature: every boundary state and every fourth step of a walk is additionally signed through hbs_lms::sign_mut (the signature is checked for the message as the call left it)");
+        if rep.counter("sign_mut_releases") == 0 {
+            rep.inconclusive("no sign_mut release observed in a fast_verify build");
         }
     }
     if rep.counter("released_signatures") < if crate::common::build_limits().is_some() { 50 } else { 1000 } {
